@@ -626,6 +626,11 @@ class Performance(object):
                     for i, pp in enumerate(self)
                     for p in pp.programs
                 ]
+                + [
+                    (i, m.get("track", -1))
+                    for i, pp in enumerate(self)
+                    for m in pp.key_signatures + pp.time_signatures + pp.meta_other
+                ]
             )
         )
 
@@ -640,6 +645,11 @@ class Performance(object):
 
             for program in ppart.programs:
                 program["track"] = track_map[(i, program.get("track", -1))]
+
+            for meta in (
+                ppart.key_signatures + ppart.time_signatures + ppart.meta_other
+            ):
+                meta["track"] = track_map[(i, meta.get("track", -1))]
 
     def __getitem__(self, index: int) -> PerformedPart:
         """Get `Part in the score by index"""
